@@ -288,3 +288,200 @@ def rule_view_live(ctx: RuleContext, p: Program, rid: str, max_raw: int = 3) -> 
 
 class _Mismatch(Exception):
     pass
+
+
+_ALIAS_CONTROL = """
+class Owner:
+    def __init__(self, items):
+        self.items = list(items)
+        self.name = 'x'
+    def move(self, store):
+        self.items = [i for i in self.items]
+class Cache:
+    def __init__(self, owner: Owner, other: 'Owner') -> None:
+        self._items = owner.items
+        self._name = other.name
+"""
+
+
+def _alias_findings(classes: list) -> tuple[list, dict]:
+    """classes: (class name, ast.ClassDef, where).  Returns ([(class, assign node, owner, attr, rebound?, where)], rebound table)"""
+    import ast as _ast
+
+    def self_attr_(t: Any, selfname: str) -> Optional[str]:
+        return t.attr if isinstance(t, _ast.Attribute) and isinstance(t.value, _ast.Name) and t.value.id == selfname else None
+    rebound: dict[str, set[str]] = {}
+    for name, node, _ in classes:
+        for fn in node.body:
+            if not isinstance(fn, _ast.FunctionDef) or fn.name in ('__init__', '__new__') or not fn.args.args:
+                continue
+            me = fn.args.args[0].arg
+            for a in _ast.walk(fn):
+                tgts = a.targets if isinstance(a, _ast.Assign) else [a.target] if isinstance(a, (_ast.AnnAssign, _ast.AugAssign)) else []
+                for t in tgts:
+                    sa = self_attr_(t, me)
+                    if sa:
+                        rebound.setdefault(name, set()).add(sa)
+    out = []
+    for name, node, where in classes:
+        init = next((f for f in node.body if isinstance(f, _ast.FunctionDef) and f.name == '__init__'), None)
+        if init is None or not init.args.args:
+            continue
+        me = init.args.args[0].arg
+        ann = {a.arg: norm(a.annotation) for a in [*init.args.args, *init.args.kwonlyargs] if a.annotation is not None}
+        for a in _ast.walk(init):
+            if not (isinstance(a, _ast.Assign) and len(a.targets) == 1 and self_attr_(a.targets[0], me) and isinstance(a.value, _ast.Attribute)
+                    and isinstance(a.value.value, _ast.Name) and a.value.value.id in ann):
+                continue
+            owner = ann[a.value.value.id].split('[', 1)[0].rsplit('.', 1)[-1].strip('\'"')
+            out.append((name, a, owner, a.value.attr, a.value.attr in rebound.get(owner, set()), where))
+    return out, rebound
+
+
+def rule_alias_rebind(ctx: RuleContext, p: Program, rid: str) -> None:
+    """an attribute that its owner rebinds after construction is not cached by another object"""
+    import ast as _ast
+    ctx.rule(rid, 'no object keeps, in an attribute of its own, the value of an attribute that the owner REBINDS after construction (`self.items = [...]` in '
+                  'Repeated._reattach ...): the copy goes stale at the next rebinding -- reads through the copy see the old object while writes '
+                  'through the owner go to the new one.  For every `self.<a> = <param>.<b>` in a constructor of the hand-written internal classes, '
+                  '<b> must not be assigned by the class of <param> (by annotation) outside its __init__')
+    ctl, _ = _alias_findings([(n.name, n, '') for n in _ast.parse(_ALIAS_CONTROL).body if isinstance(n, _ast.ClassDef)])
+    ctx.control(rid, 'the embedded example (a cache of an attribute its owner rebinds in a later method) is flagged, the copy of an attribute that is '
+                     'never rebound is not', True, sorted((c, attr, bad) for c, _, _, attr, bad, _ in ctl) == [('Cache', 'items', True), ('Cache', 'name', False)])
+    classes = [(c.name, c.node, c) for c in p.classes
+               if not c.module.name.endswith('_test') and '.generated' not in c.module.name and c.module.name.startswith('autobean_refactor.models')]
+    found, rebound = _alias_findings(classes)
+    n = 0
+    for cname, a, owner, attr, bad, c in found:
+        if '.models.internal' not in c.module.name:
+            continue
+        n += 1
+        ctx.check(not bad, rid, f'{c.module.name.split(".", 1)[1]}:{cname}.__init__', norm(a)[:80],
+                  f'`{norm(a)[:80]}` keeps the value of {owner}.{attr} at construction time, but {owner} assigns that attribute again later '
+                  f'(after a move to another store the owner holds a new object): the copy is stale from then on -- reads through it and writes '
+                  f'through the owner no longer meet', f'{c.module.relpath}:{a.lineno}', note='the attribute is never rebound by its owner', nontrivial=False)
+    ctx.stats['alias_candidates'] = n
+    if 'items' not in rebound.get('Repeated', set()):
+        raise AnalysisError('ALIAS-REBIND: Repeated.items is no longer rebound outside __init__ (the anchor of this rule vanished)')
+
+
+_STORE_EDGE_OK = {
+    'models.file:File.first_token': 'the file IS the whole document',
+    'models.file:File.last_token': 'the file IS the whole document',
+    'models.base:RawModel.detach': 'the gate: compares the model\'s edges with the store\'s and hands out the whole store only when they coincide',
+}
+
+_STORE_EDGE_CONTROL = """
+def swap(cost, left, right):
+    old_left, *_, old_right = cost.token_store
+    cost.token_store.replace(old_left, left)
+def fine(cost, left):
+    cost.token_store.replace(cost.first_token, left)
+    for t in cost.token_store.iter(cost.first_token, cost.last_token):
+        pass
+"""
+
+
+def _store_edge_uses(fn_node: Any) -> list:
+    """expressions in a function that take the WHOLE store: get_first() / get_last(), iterating / unpacking / list()-ing a `.token_store`"""
+    import ast as _ast
+
+    def is_store(e: Any) -> bool:
+        return isinstance(e, _ast.Attribute) and e.attr in ('token_store', '_token_store')
+    out = []
+    for n in _ast.walk(fn_node):
+        if isinstance(n, _ast.Call) and isinstance(n.func, _ast.Attribute) and n.func.attr in ('get_first', 'get_last') and not n.args and is_store(n.func.value):
+            out.append(n)
+        elif isinstance(n, (_ast.For, _ast.comprehension)) and is_store(n.iter):
+            out.append(n.iter)
+        elif isinstance(n, _ast.Assign) and is_store(n.value) and any(isinstance(t, (_ast.Tuple, _ast.List)) for t in n.targets):
+            out.append(n.value)
+        elif isinstance(n, _ast.Call) and isinstance(n.func, _ast.Name) and n.func.id in ('list', 'tuple', 'iter', 'next', 'reversed', 'len') and n.args and is_store(n.args[0]):
+            out.append(n)
+        elif isinstance(n, _ast.Starred) and is_store(n.value):
+            out.append(n.value)
+    return out
+
+
+def rule_store_edge(ctx: RuleContext, p: Program, rid: str) -> None:
+    """a model inside a document is not its store: the store's own edges are used only where the model is the whole document"""
+    import ast as _ast
+    ctx.rule(rid, 'the extent of a model is first_token .. last_token; the edges and the full content of its token STORE (get_first() / get_last(), '
+                  'iterating, unpacking or list()-ing `x.token_store`) belong to the whole document the model may sit in.  Outside the three places '
+                  'where model and store coincide by construction (File.first_token / last_token, the gate in RawModel.detach), no function of the '
+                  'models or the editor takes them: a helper that does works on a stand-alone model and rewrites the first and last token of the ledger otherwise')
+    ctl = {f.name: len(_store_edge_uses(f)) for f in _ast.parse(_STORE_EDGE_CONTROL).body if isinstance(f, _ast.FunctionDef)}
+    ctx.control(rid, 'the embedded example (star-unpacking of cost.token_store) is flagged, a bounded iter(first_token, last_token) is not', True,
+                ctl == {'swap': 1, 'fine': 0})
+    n = 0
+    seen_ok = set()
+    for m in p.modules.values():
+        if m.name.endswith('_test') or '.tests' in m.name or '.generated' in m.name or '.modelgen' in m.name or not m.name.startswith('autobean_refactor'):
+            continue
+        if not ('.models' in m.name or m.name.endswith('.editor') or m.name.endswith('.printer')):
+            continue
+        for fn in p.functions_in(m):
+            if fn.kind == 'overload':
+                continue
+            uses = _store_edge_uses(fn.node)
+            if not uses:
+                continue
+            site = f'{m.name.split(".", 1)[1]}:{fn.qualname}'
+            for u in uses:
+                n += 1
+                ok = site in _STORE_EDGE_OK
+                if ok:
+                    seen_ok.add(site)
+                ctx.check(ok, rid, site, norm(u)[:70],
+                          f'`{norm(u)[:70]}` in {fn.qualname} takes the edge / the content of the whole token store: for a model that sits inside a posting, '
+                          f'a transaction or a file that is the first / last token of the LEDGER, not of the model (use first_token / last_token, or '
+                          f'token_store.iter(first_token, last_token))', f'{m.relpath}:{getattr(u, "lineno", fn.node.lineno)}',
+                          note=_STORE_EDGE_OK.get(site, ''), nontrivial=False)
+    if len(seen_ok) < 3:
+        raise AnalysisError(f'STORE-EDGE: only {sorted(seen_ok)} of the three confirmed whole-store sites found')
+
+
+def rule_prop_shadow(ctx: RuleContext, p: Program, rid: str) -> None:
+    """a property re-declared without its setter takes the setter away from every subclass that relied on the inherited one"""
+    import ast as _ast
+    ctx.rule(rid, 'a class that declares a property of the same name as a settable property of one of its bases declares the setter too: a property '
+                  'object without a setter is still a data descriptor, so it hides the inherited getter / setter pair, and every subclass that relied on '
+                  'the inherited setter (`token.raw_text = s` on blanks, operators, keywords ...) raises AttributeError on assignment')
+
+    def props(node: Any) -> tuple[set, set]:
+        getters, setters = set(), set()
+        for f in node.body:
+            if isinstance(f, _ast.FunctionDef):
+                for d in f.decorator_list:
+                    dn = norm(d)
+                    if dn in ('property', 'functools.cached_property', 'cached_property') or dn.endswith('custom_property'):
+                        getters.add(f.name)
+                    elif dn.endswith('.setter'):
+                        setters.add(f.name)
+        return getters, setters
+    n = 0
+    table = {}
+    for c in p.classes:
+        if c.module.name.endswith('_test') or not c.module.name.startswith('autobean_refactor'):
+            continue
+        table[id(c)] = props(c.node)
+    for c in p.classes:
+        if id(c) not in table:
+            continue
+        getters, setters = table[id(c)]
+        for name in sorted(getters - setters):
+            owner = next((k for k in c.mro[1:] if id(k) in table and name in table[id(k)][0]), None)
+            if owner is None:
+                continue
+            n += 1
+            lost = name in table[id(owner)][1]
+            ctx.check(not lost, rid, f'{c.module.name.split(".", 1)[1]}:{c.name}.{name}', 'read-only re-declaration of a settable property',
+                      f'{c.name}.{name} is re-declared as a property without a setter, but {owner.name}.{name} (a base class) has one: the new property '
+                      f'hides the pair, so assigning `{name}` raises AttributeError for {c.name} and for every subclass that does not bring its own setter',
+                      c.where, note=f'{owner.name}.{name} has no setter either', nontrivial=False)
+    ctx.stats['prop_redeclarations'] = n
+    # positive control on an embedded example
+    ctl = _ast.parse("class A:\n    @property\n    def t(self): return 1\n    @t.setter\n    def t(self, v): pass\nclass B(A):\n    @property\n    def t(self): return 2\n")
+    ga, sa = props(ctl.body[0])
+    gb, sb = props(ctl.body[1])
+    ctx.control(rid, 'the embedded example (a subclass re-declares a settable property with a getter only) is recognised', True, 't' in gb - sb and 't' in sa)
